@@ -20,17 +20,32 @@ import (
 	paramstypes "github.com/cosmos/cosmos-sdk/x/params/types"
 	"github.com/ethereum/go-ethereum/common"
 
+	cpckeeper "github.com/EscanBE/evermint/v12/x/cpc/keeper"
+	cpctypes "github.com/EscanBE/evermint/v12/x/cpc/types"
 	evmkeeper "github.com/EscanBE/evermint/v12/x/evm/keeper"
 	evmtypes "github.com/EscanBE/evermint/v12/x/evm/types"
 	evmvm "github.com/EscanBE/evermint/v12/x/evm/vm"
+	feemarkettypes "github.com/EscanBE/evermint/v12/x/feemarket/types"
+	vauthkeeper "github.com/EscanBE/evermint/v12/x/vauth/keeper"
+	vauthtypes "github.com/EscanBE/evermint/v12/x/vauth/types"
 	"github.com/EscanBE/evermint/v12/zzverif/model"
 	"github.com/EscanBE/evermint/v12/zzverif/verif"
+	distkeeper "github.com/cosmos/cosmos-sdk/x/distribution/keeper"
+	stakingkeeper "github.com/cosmos/cosmos-sdk/x/staking/keeper"
 )
 
 var (
-	EvmKey  = storetypes.NewKVStoreKey(evmtypes.StoreKey)
-	EvmTKey = storetypes.NewTransientStoreKey(evmtypes.TransientKey)
+	EvmKey   = storetypes.NewKVStoreKey(evmtypes.StoreKey)
+	EvmTKey  = storetypes.NewTransientStoreKey(evmtypes.TransientKey)
+	CpcKey   = storetypes.NewKVStoreKey(cpctypes.StoreKey)
+	VAuthKey = storetypes.NewKVStoreKey(vauthtypes.StoreKey)
 )
+
+// FeeMarket is the fee-market keeper seen by x/evm (an interface there): fixed params.
+type FeeMarket struct{ Params feemarkettypes.Params }
+
+func (f *FeeMarket) GetBaseFee(ctx sdk.Context) sdkmath.Int          { return f.Params.BaseFee }
+func (f *FeeMarket) GetParams(ctx sdk.Context) feemarkettypes.Params { return f.Params }
 
 const EvmDenom = "wei"
 
@@ -40,6 +55,9 @@ type Env struct {
 	AK     authkeeper.AccountKeeper
 	BK     bankkeeper.Keeper
 	EK     *evmkeeper.Keeper
+	CK     cpckeeper.Keeper
+	VK     vauthkeeper.Keeper
+	FM     *FeeMarket
 	Denoms []string
 	mbk    *model.BK
 }
@@ -53,7 +71,7 @@ func New(extraDenoms ...string) *Env { return NewAt(1_700_000_000, extraDenoms..
 // NewAt is New with the given block time (unix seconds, may be symbolic).
 func NewAt(blockTime int64, extraDenoms ...string) *Env {
 	e := &Env{Denoms: append([]string{EvmDenom}, extraDenoms...)}
-	e.MS = model.NewMS(model.AuthKey, model.BankKey, EvmKey, EvmTKey)
+	e.MS = model.NewMS(model.AuthKey, model.BankKey, EvmKey, EvmTKey, CpcKey, VAuthKey)
 	e.Ctx = sdk.NewContext(e.MS, cmtproto.Header{Height: 10, ChainID: "evermint_90909-1", Time: time.Unix(blockTime, 0).UTC()}, false, model.NopLogger{})
 	if verif.Symbolic() {
 		e.mbk = &model.BK{Denoms: e.Denoms}
@@ -62,7 +80,14 @@ func NewAt(blockTime int64, extraDenoms ...string) *Env {
 		e.AK, e.BK = newNativeKeepers(e)
 	}
 	model.SetNextAccountNumberCompat(e.Ctx, e.AK, 1000)
-	e.EK = evmkeeper.NewKeeper(model.CodecFor(e.AK), EvmKey, EvmTKey, authority, e.AK, e.BK, nil, nil, "", paramstypes.Subspace{})
+	e.FM = &FeeMarket{Params: feemarkettypes.Params{BaseFee: sdkmath.ZeroInt(), MinGasPrice: sdkmath.LegacyZeroDec()}}
+	e.EK = evmkeeper.NewKeeper(model.CodecFor(e.AK), EvmKey, EvmTKey, authority, e.AK, e.BK, nil, e.FM, "", paramstypes.Subspace{})
+	e.CK = cpckeeper.NewKeeper(model.CodecFor(e.AK), CpcKey, authority, e.AK, e.BK, stakingkeeper.Keeper{}, distkeeper.Keeper{})
+	if err := e.CK.SetParams(e.Ctx, cpctypes.DefaultParams()); err != nil {
+		panic(err)
+	}
+	e.EK.WithCpcKeeper(e.CK)
+	e.VK = vauthkeeper.NewKeeper(model.CodecFor(e.AK), VAuthKey, e.BK, *e.EK)
 	params := evmtypes.DefaultParams()
 	params.EvmDenom = EvmDenom
 	if err := e.EK.SetParams(e.Ctx, params); err != nil {
@@ -116,4 +141,17 @@ func Amount(name string, bits uint) *big.Int {
 	v := verif.Big(name)
 	verif.Assume(v.Sign() >= 0 && v.Cmp(new(big.Int).Lsh(big.NewInt(1), bits)) < 0)
 	return v
+}
+
+// EVMConfig builds the EVM configuration the way Keeper.EVMConfig does, with the given coinbase and base fee
+// (the real one derives the coinbase from the staking keeper, which is outside the harness).
+func (e *Env) EVMConfig(ctx sdk.Context, coinbase common.Address, baseFee *big.Int) *evmvm.EVMConfig {
+	params := e.EK.GetParams(ctx)
+	return &evmvm.EVMConfig{
+		Params:      params,
+		ChainConfig: params.ChainConfig.EthereumConfig(e.EK.GetEip155ChainId(ctx).BigInt()),
+		CoinBase:    coinbase,
+		BaseFee:     baseFee,
+		NoBaseFee:   e.EK.IsNoBaseFeeEnabled(ctx),
+	}
 }
